@@ -162,8 +162,11 @@ pub fn gen_bigram_sized(rng: &mut Rng, big_costs: bool, star_listed: bool, nr: u
     // -30000 (every partial sum of two leaves 16 bits, the sum of the three fits)
     // (only in models with large costs, i.e. in C07's own stream and the image streams: where two builds of one dual
     // dictionary are compared, a pre-summed part outside 16 bits would make the -- unordered -- greedy split visible)
-    if big_costs && k >= 9 && right[0].len() > 2 && left[0].len() > 2 && rng.chance(1, 2) {
-        for (p, c) in [(0usize, 30000i32), (1, 30000), (2, -30000)] {
+    if big_costs && k >= 9 && right[0].len() == k && left[0].len() == k && rng.chance(1, 2) {
+        // every position of the first right / left row carries +30000, +30000, -30000, ... in turn: whatever positions the
+        // dual connector pre-sums, the order of adding and saturating matters
+        for p in 0..k {
+            let c = if p % 3 == 2 { -30000 } else { 30000 };
             let (a, b) = (format!("S{}", p), format!("s{}", p));
             right[0][p] = a.clone();
             left[0][p] = b.clone();
